@@ -4,6 +4,7 @@
 //! property oracles (`oracle.jsonl`) and measured coverage (`stats.json`).
 mod common;
 mod eng_diff;
+mod eng_vec;
 
 use common::*;
 use std::path::PathBuf;
@@ -28,6 +29,7 @@ fn main() {
     sink.focus = a.focus.clone();
     match a.engine.as_str() {
         "diff" => eng_diff::run(&a, &mut sink),
+        "vec" => eng_vec::run(&a, &mut sink),
         e => {
             eprintln!("unknown engine {e}");
             std::process::exit(2);
